@@ -110,6 +110,7 @@ def run(facts, out):
             out.add('FR-F1', DRIVER, 'dispatch:' + v, got[1] if got else 'src/decode.rs', ok,
                     '' if ok else 'lines of section `%s` are dispatched to `%s` instead of `%s`' % (
                         v, got[0] if got else 'nothing', exp), ordinal=False)
+        check_dispatch_follows_header(facts, body, out)
     # ---- F3 / SW in parse_section
     ps = facts.body(PARSE_SECTION)
     out.anchor('FR', 'parse_section', ps is not None)
@@ -143,6 +144,105 @@ def run(facts, out):
         out.add('FR-F3', cl.path, 'trailing-trim', '%s:%d' % (cl.file, cl.line), ok,
                 '' if ok else 'curr_line must end in str::trim_end only (calls: %s)' % names, ordinal=False)
     return tab
+
+
+def check_dispatch_follows_header(facts, body, out):
+    """F1b: the parser handed to parse_section is chosen anew from every header parse_section returns:
+    from the `Continue(next)` payload every path back to the parse_section call passes through a
+    dispatch on the section, and the dispatched-on value is that payload (or the first section)."""
+    def is_section(l):
+        return l is not None and body.locals[l].get('adt') == 'section::Section'
+    P = []
+    D = {}          # block -> local dispatched on
+    for bi, blk in enumerate(body.blocks):
+        if blk.get('cleanup'):
+            continue
+        t = blk['term']
+        if t['k'] == 'call':
+            c = callee_of(t)
+            if c and facts.ref_path(c['path']) == PARSE_SECTION:
+                P.append(bi)
+            elif c and c.get('local') and c['path'] in facts.bodies:
+                for a in t['args']:
+                    l = op_local(a)
+                    if is_section(l):
+                        D[bi] = l
+        elif t['k'] == 'switch':
+            dl = op_local(t['discr'])
+            d = [x for x in body.defs.get(dl, []) if x[2] == 'assign' and x[3]['rv']['k'] == 'discr'] if dl is not None else []
+            if d and not d[0][3]['rv']['pl']['p'] and is_section(d[0][3]['rv']['pl']['l']):
+                D[bi] = d[0][3]['rv']['pl']['l']
+    out.anchor('FR', 'parse_section call and section dispatch in the driver', bool(P) and bool(D), '%s %s' % (P, sorted(D)))
+    if not P or not D:
+        return
+    # Continue payloads
+    B = {}
+    for bi, blk in enumerate(body.blocks):
+        if blk.get('cleanup'):
+            continue
+        for s in blk['st']:
+            if s['k'] != 'assign' or s['rv']['k'] != 'use':
+                continue
+            pl = op_place(s['rv']['op'])
+            if pl is not None and any(e['k'] == 'downcast' and e.get('v') == 'Continue' for e in pl['p']) \
+                    and is_section(s['pl']['l']) and not s['pl']['p']:
+                B[bi] = s['pl']['l']
+    out.anchor('FR', 'Continue(next) payload read in the driver', bool(B), str(sorted(B)))
+    if not B:
+        return
+    # (1) must pass through a dispatch before the next parse_section call
+    bad_path = None
+    for b0 in B:
+        seen = set()
+        st = [b0]
+        while st:
+            x = st.pop()
+            if x in seen:
+                continue
+            seen.add(x)
+            if x in D and x != b0:
+                continue
+            if x in P and x != b0:
+                bad_path = (b0, x)
+                break
+            st.extend(body.succ(x))
+        if bad_path:
+            break
+    ok1 = bad_path is None
+    out.add('FR-F1', DRIVER, 'dispatch-after-every-header', loc_of(body.term(P[0])['sp']), ok1,
+            '' if ok1 else ('after a section header was read there is a path back to parse_section that does not choose the '
+                            'parser again: lines of the new section would go to the previous section\'s parser'), ordinal=False)
+    # (2) the value dispatched on is the header just read (or the first section)
+    def sources(l, depth=0, seen=None):
+        seen = seen if seen is not None else set()
+        if l in seen or depth > 8:
+            return set()
+        seen.add(l)
+        res = set()
+        for bi, si, kind, s in body.defs.get(l, []):
+            if kind != 'assign':
+                res.add('call')
+                continue
+            rv = s['rv']
+            if rv['k'] == 'use':
+                pl = op_place(rv['op'])
+                if pl is None:
+                    res.add('const')
+                elif any(e['k'] == 'downcast' for e in pl['p']):
+                    res.add('payload:' + ','.join(e.get('v', '?') for e in pl['p'] if e['k'] == 'downcast'))
+                elif not pl['p']:
+                    res |= sources(pl['l'], depth + 1, seen)
+                else:
+                    res.add('other')
+            else:
+                res.add('other')
+        return res
+    for bi, l in sorted(D.items()):
+        src = sources(l)
+        ok2 = any('Continue' in x for x in src) and all(x.startswith('payload:') for x in src)
+        out.add('FR-F1', DRIVER, 'dispatch-on-latest-header', loc_of(body.term(bi)['sp']), ok2,
+                '' if ok2 else ('the section dispatched on is not (only) the header parse_section just returned / the first '
+                                'section (sources: %s)') % sorted(src), ordinal=False)
 
 
 def _calls_named(body, pred):
